@@ -130,8 +130,10 @@ def r6_ready_macro(text):
 
 
 def r4_opaque_format(text):
-    """R4: `format!(..)` -> verif_opaque_string()   (error-message contents dropped)"""
+    """R4: `format!(..)` and `err.to_string()` -> verif_opaque_string()   (error-message contents dropped)"""
     cnt = 0
+    text, n0 = re.subn(r"\b(err|error|e)\.to_string\(\)", "verif_opaque_string()", text)
+    cnt += n0
     while True:
         m = L.mask(text)
         k = re.search(r"(?<![A-Za-z0-9_])format!\s*\(", m)
@@ -433,7 +435,71 @@ def r17_continue_elimination(text):
             return text, cnt
 
 
+def r18_question_mark(text):
+    """R18: a statement-final `?` is desugared per the Rust reference:
+         `EXPR?;`            -> `match EXPR { Ok(_) => {}, Err(e__) => return Err(From::from(e__)) };`
+         `let P = EXPR?;`    -> `let P = match EXPR { Ok(v__) => v__, Err(e__) => return Err(From::from(e__)) };`
+    (Verus does not apply the `From` specification at `?`, so the error variant produced by the
+    conversion would otherwise be unknown.)"""
+    cnt = 0
+    while True:
+        m = L.mask(text)
+        found = False
+        for k in re.finditer(r"\?\s*;", m):
+            q = k.start()
+            st = L.item_start(m, q)
+            st = L.skip_ws(m, st)
+            seg = m[st:q]
+            # the `?` must be at depth 0 of the statement
+            depth_ok = True
+            j = st
+            while j < q:
+                if m[j] in "([{":
+                    e = L.match_close(m, j)
+                    if e >= q:
+                        depth_ok = False
+                        break
+                    j = e
+                j += 1
+            if not depth_ok:
+                continue
+            lm = re.match(r"let\s+(.+?)\s*=\s*", seg, re.S)
+            if lm and "=" not in seg[:lm.start(1)]:
+                # find the first top-level '=' (pattern may contain type ascription)
+                eq = None
+                j = st + 3
+                while j < q:
+                    if m[j] in "([{":
+                        j = L.match_close(m, j)
+                    elif m[j] == "<":
+                        try:
+                            j = L.match_angle(m, j)
+                        except L.LexError:
+                            pass
+                    elif m[j] == "=" and m[j + 1] != "=" and m[j - 1] not in "=!<>":
+                        eq = j
+                        break
+                    j += 1
+                if eq is None:
+                    continue
+                head = text[st:eq + 1]
+                expr = text[eq + 1:q].strip()
+                new = head + " match " + expr + " { Ok(v__) => v__, Err(e__) => return Err(From::from(e__)) };"
+            elif re.match(r"(return|break|continue)\b", seg):
+                continue
+            else:
+                expr = text[st:q].strip()
+                new = "match " + expr + " { Ok(_) => {}, Err(e__) => return Err(From::from(e__)) };"
+            text = text[:st] + new + text[k.end():]
+            cnt += 1
+            found = True
+            break
+        if not found:
+            return text, cnt
+
+
 RULES = {
+    "R18": r18_question_mark,
     "R17": r17_continue_elimination,
     "R16": r16_split_iter_map_collect,
     "R15": r15_static_to_const,
